@@ -2,6 +2,7 @@
 CONSTANTS
   Classes <- ClassesDef
   Contexts <- ContextsDef
+  Alphabet <- FullAlphabet
   RegularExtra <- NoExtra
   AngleGuard = FALSE
   FontFix = TRUE
